@@ -57,6 +57,11 @@ def labels_partition(
         weight_nodes=weight_nodes, weight_edges=weight_edges
     )
 
+    if hg.get_num_edges() == 0:
+        # no indices at all -> nothing to propagate labels along,
+        # round robin partition instead
+        return [i % parts for i in range(n)]
+
     sites = list(hg.nodes)
     neighbs = collections.defaultdict(set)
     max_edge_weight = max(winfo["edge_weights"])
